@@ -1,4 +1,4 @@
-CONSTANTS MaxScript = 3 MaxN = 3 Dev = {}
+CONSTANTS MaxScript = 3 MaxPause = 0 MaxN = 3 Dev = {}
 INIT AdvInit
 NEXT Next
 INVARIANTS Sound
